@@ -33,7 +33,7 @@ man = {
     "setup_cmd": "./setup.sh",
     "hooks": {
         "guard": "verif",
-        "enable": "go build -tags verif -overlay harness/overlay.json (export-only shims under /verif/harness/shims are injected by the overlay; /repo receives no hook commits)",
+        "enable": "harness/bin/mkshims -repo /repo -engine <e> -out harness/overlay-<e>.json && go build -tags verif -overlay harness/overlay-<e>.json ./cmd/h-<e> (export-only shims under /verif/harness/shims, pruned per engine and bridged over renames by mkshims, are injected by the overlay; /repo receives no hook commits)",
         "baseline_off_cmd": "cd /repo && go test -mod=mod -vet=off -count=1 -timeout 25m ./...",
         "source_commits": [],
         "add_only": True,
